@@ -28,6 +28,23 @@ REPLAYS = VERIF / 'replays'
 KNOWN = VERIF / 'known_findings.json'
 
 
+_journal_file = None
+
+
+def journal(obj):
+    """crash isolation: remember what is about to run (read back by the parent if the process dies)"""
+    global _journal_file
+    path = os.environ.get('VERIF_JOURNAL')
+    if not path:
+        return
+    if _journal_file is None:
+        _journal_file = open(path, 'w')
+    _journal_file.seek(0)
+    _journal_file.truncate()
+    _journal_file.write(json.dumps(obj, default=repr))
+    _journal_file.flush()
+
+
 def jhash(obj) -> str:
     return hashlib.sha1(json.dumps(obj, sort_keys=True, default=repr).encode()).hexdigest()[:16]
 
@@ -47,6 +64,7 @@ class Ctx:
         self._fails: list[tuple[str, str]] = []
         self._nontrivial = False
         self.harness_errors: list[str] = []
+        self.recording = True
 
     # ---- called from check_case
     def fail(self, oracle: str, msg: str = ''):
@@ -68,6 +86,7 @@ class Ctx:
         """Run one case; returns list of (oracle, msg) that are NOT attributed to known findings."""
         self._fails = []
         self._nontrivial = False
+        self.recording = record
         try:
             self.prop.check_case(case, self)
         except BaseException as e:  # noqa: BLE001
@@ -145,7 +164,7 @@ def match_known(prop_id, oracle, case, msg):
 
 LEAF0 = ['i', 0]
 _CHILD_LISTS = {'tuple': [1], 'list': [1], 'deque': [1], 'nt': [2], 'ss': [2], 'cg': [1], 'cu': [1],
-                'ci': [1], 'cq': [1], 'partial': [2]}
+                'ci': [1], 'cq': [1], 'fn': [1], 'partial': [2]}
 _ITEM_LISTS = {'dict': 1, 'od': 1, 'dd': 2, 'cm': 1, 'cp': 1}
 _SINGLE = {'cn': [1, 2], 'cs': [1, 2], 'dc': [1, 2]}
 _HIST = {'dict': 2, 'od': 2, 'dd': 3, 'deque': 3}
